@@ -13,6 +13,9 @@ Sections
            Coq: normal equations / orthogonality, optimality against perturbations,
            reparametrisation, voxel order / grouping, rescaling, degenerate whiteners,
            engine agreement (incl. labs kalman from the installed module), labs axis handling
+  kalman_c the CURRENT lib/fff/fff_glm_kalman.c driven through ctypes on libcstat.so (KF_new / _reset /
+           _iterate row by row, KF_fit, RKF_fit): Gallina recursion (Model.kf_step) vs C, batch
+           regularised / OLS solutions, ssd/t and dof conventions, RKF against the installed wrapper
 """
 from fractions import Fraction
 
@@ -45,6 +48,10 @@ def qv(a):
 
 def zv(a):
     return "(zvec %s)" % czl([int(v) for v in a])
+
+
+def qs(x):
+    return "(Q2Qc %s)" % cq(float(x))
 
 
 def qfr(fr):
@@ -585,6 +592,173 @@ def glm_ar1_section(ck, cx):
             ck.sample({"X": X.tolist(), "Y": Y.tolist(), "steps": steps, "labels_": labels.tolist(), "get_beta": beta.tolist()})
     ck.section("glm_ar1", cases=N, cases_with_shared_and_distinct_labels=multi)
 
+# ---------------------------------------------------------------- current fff_glm_kalman.c through ctypes
+def _kalman_lib(ck):
+    import ctypes as C
+    lib = C.CDLL(str(ck.ov["cstat"]))
+
+    class Vec(C.Structure):
+        _fields_ = [("size", C.c_size_t), ("stride", C.c_size_t), ("data", C.POINTER(C.c_double)), ("owner", C.c_int)]
+
+    class Mat(C.Structure):
+        _fields_ = [("size1", C.c_size_t), ("size2", C.c_size_t), ("tda", C.c_size_t), ("data", C.POINTER(C.c_double)),
+                    ("owner", C.c_int)]
+
+    class KF(C.Structure):
+        _fields_ = [("t", C.c_size_t), ("dim", C.c_size_t), ("b", C.POINTER(Vec)), ("Vb", C.POINTER(Mat)), ("Cby", C.POINTER(Vec)),
+                    ("ssd", C.c_double), ("s2", C.c_double), ("dof", C.c_double), ("s2_cor", C.c_double)]
+
+    class RKF(C.Structure):
+        _fields_ = [("t", C.c_size_t), ("dim", C.c_size_t), ("Kfilt", C.POINTER(KF)), ("db", C.POINTER(Vec)), ("Hssd", C.POINTER(Mat)),
+                    ("spp", C.c_double), ("Gspp", C.POINTER(Vec)), ("Hspp", C.POINTER(Mat)), ("b", C.POINTER(Vec)), ("Vb", C.POINTER(Mat)),
+                    ("s2", C.c_double), ("a", C.c_double), ("dof", C.c_double), ("s2_cor", C.c_double),
+                    ("vaux", C.POINTER(Vec)), ("Maux", C.POINTER(Mat))]
+    lib.fff_glm_KF_new.restype = C.POINTER(KF)
+    lib.fff_glm_KF_new.argtypes = [C.c_size_t]
+    lib.fff_glm_KF_reset.argtypes = [C.POINTER(KF)]
+    lib.fff_glm_KF_reset.restype = None
+    lib.fff_glm_KF_delete.argtypes = [C.POINTER(KF)]
+    lib.fff_glm_KF_delete.restype = None
+    lib.fff_glm_KF_iterate.argtypes = [C.POINTER(KF), C.c_double, C.POINTER(Vec)]
+    lib.fff_glm_KF_iterate.restype = None
+    lib.fff_glm_KF_fit.argtypes = [C.POINTER(KF), C.POINTER(Vec), C.POINTER(Mat)]
+    lib.fff_glm_KF_fit.restype = None
+    lib.fff_glm_RKF_new.restype = C.POINTER(RKF)
+    lib.fff_glm_RKF_new.argtypes = [C.c_size_t]
+    lib.fff_glm_RKF_delete.argtypes = [C.POINTER(RKF)]
+    lib.fff_glm_RKF_delete.restype = None
+    lib.fff_glm_RKF_fit.argtypes = [C.POINTER(RKF), C.c_uint, C.POINTER(Vec), C.POINTER(Mat)]
+    lib.fff_glm_RKF_fit.restype = None
+
+    def vec(a):
+        return Vec(a.size, 1, a.ctypes.data_as(C.POINTER(C.c_double)), 0)
+
+    def mat(a):
+        return Mat(a.shape[0], a.shape[1], a.shape[1], a.ctypes.data_as(C.POINTER(C.c_double)), 0)
+    return lib, C, vec, mat
+
+
+def ridge_exact(X, y, lam):
+    """exact solution of (X'X + lam I) b = X'y (Fractions)"""
+    n, p = len(X), len(X[0])
+    Xa = [list(map(Fraction, r)) for r in X] + [[(lam if i == j else Fraction(0)) for j in range(p)] for i in range(p)]
+    # normal equations of the augmented problem with sqrt avoided: build them directly
+    A = [[sum(Fraction(X[t][i]) * X[t][j] for t in range(n)) + (lam if i == j else 0) for j in range(p)] +
+         [sum(Fraction(X[t][i]) * y[t] for t in range(n))] for i in range(p)]
+    for k in range(p):
+        piv = next(r for r in range(k, p) if A[r][k] != 0)
+        A[k], A[piv] = A[piv], A[k]
+        A[k] = [v / A[k][k] for v in A[k]]
+        for r in range(p):
+            if r != k and A[r][k] != 0:
+                f = A[r][k]
+                A[r] = [a - f * b for a, b in zip(A[r], A[k])]
+    b = [A[i][p] for i in range(p)]
+    rss = sum((Fraction(y[t]) - sum(Fraction(X[t][j]) * b[j] for j in range(p))) ** 2 for t in range(n))
+    return b, rss + lam * sum(v * v for v in b)
+
+
+def kalman_c_section(ck, cx):
+    """drive the CURRENT lib/fff/fff_glm_kalman.c row by row and compare with the batch solutions"""
+    lib, C, vec, mat = _kalman_lib(ck)
+    rng = ck.rng("kalman-c")
+    N = ck.n(40, 250)
+    LAM = Fraction(1, 10 ** 7)
+    TOLK = "(Qmake 1 1000000)"
+    stale = 0
+    for i in range(N):
+        n = int(rng.integers(3, 13 if not ck.thorough() else 25))
+        p = int(rng.integers(1, min(n - 1, 4) + 1))
+        X = rand_design(rng, n, p)
+        y = rand_data(rng, n, 1, X)[:, 0]
+        Xf = np.ascontiguousarray(X, dtype=float)
+        yf = np.ascontiguousarray(y, dtype=float)
+        rep = {"X": X.tolist(), "y": y.tolist()}
+        ck.count(("kalman-c", X.tobytes(), y.tobytes()), bucket="kalman_c:p%d" % p)
+        kf = lib.fff_glm_KF_new(p)
+        lib.fff_glm_KF_reset(kf)
+        tcheck = int(rng.integers(1, n))
+        mid = None
+        ok = True
+        for t in range(n):
+            row = np.ascontiguousarray(Xf[t])
+            v = vec(row)
+            lib.fff_glm_KF_iterate(kf, float(yf[t]), C.byref(v))
+            k = kf.contents
+            if k.t != t + 1 or k.s2 != k.ssd / (t + 1):
+                ck.fail("kalman-c/s2-is-not-ssd-over-t", "after %d rows t=%d, s2=%r, ssd/t=%r" % (t + 1, k.t, k.s2, k.ssd / (t + 1)), rep)
+                ok = False
+                break
+            if t + 1 == tcheck:
+                mid = ([k.b.contents.data[j] for j in range(p)], k.ssd)
+        k = kf.contents
+        b_rows = np.array([k.b.contents.data[j] for j in range(p)])
+        ssd_rows = k.ssd
+        Vb = np.array([k.Vb.contents.data[j] for j in range(p * p)]).reshape(p, p)
+        # the one-call driver gives the same state, plus dof and s2_cor
+        lib.fff_glm_KF_reset(kf)
+        yv, Xm = vec(yf), mat(Xf)
+        lib.fff_glm_KF_fit(kf, C.byref(yv), C.byref(Xm))
+        k = kf.contents
+        b_fit = np.array([k.b.contents.data[j] for j in range(p)])
+        ssd, s2, dof, s2c, tt = k.ssd, k.s2, k.dof, k.s2_cor, k.t
+        lib.fff_glm_KF_delete(kf)
+        if not ok:
+            continue
+        if not np.array_equal(b_fit, b_rows) or ssd != ssd_rows:
+            ck.fail("kalman-c/fit-differs-from-row-by-row", "fff_glm_KF_fit and reset + iterate over the rows give different states", rep)
+        if dof != n - p or tt != n:
+            ck.fail("kalman-c/dof", "dof %r != n-p = %d or t %r != n" % (dof, n - p, tt), rep)
+        if abs(s2c - (n / dof) * s2) > 1e-12 * (1 + abs(s2c)) or abs(s2 - ssd / n) > 1e-12 * (1 + abs(s2)):
+            ck.fail("kalman-c/scale-convention", "s2 != ssd/n or s2_cor != (n/dof) s2", dict(rep, s2=s2, s2_cor=s2c, ssd=ssd))
+        # batch solutions (exact): the prior-regularised one the filter computes, and plain OLS
+        br, pen = ridge_exact(X.tolist(), y.tolist(), LAM)
+        brf = np.array([float(v) for v in br])
+        if not close(b_fit, brf, 1e-6) or abs(ssd - float(pen)) > 1e-6 * (1 + float(pen)):
+            ck.fail("kalman-c/differs-from-batch-regularised-solution",
+                    "after all rows b / ssd differ from the batch solution of (X'X + 1e-7 I) b = X'y and its penalised RSS",
+                    dict(rep, b=b_fit.tolist(), ssd=ssd, exact_b=brf.tolist(), exact_ssd=float(pen)))
+        ex = exact_ls(X.tolist(), y.tolist())
+        bo = np.array([float(v) for v in ex[0]])
+        slack = 1e-5 * (1 + float(np.abs(bo).max()) ** 2)
+        if np.any(np.abs(b_fit - bo) > 1e-4 * (1 + np.abs(bo)) + slack) or abs(ssd - float(ex[2])) > 1e-4 * (1 + float(ex[2])) + slack \
+                or abs(s2c - float(ex[2]) / (n - p)) > 1e-4 * (1 + float(ex[2])) + slack:
+            ck.fail("kalman-c/differs-from-batch-ols", "Kalman OLS estimate / ssd / s2_cor differ from the batch OLS solution beyond the prior's effect",
+                    dict(rep, b=b_fit.tolist(), ols=bo.tolist(), ssd=ssd, rss=float(ex[2])))
+        if not close(Vb, Vb.T, 1e-7) or not close(Vb @ (Xf.T @ Xf + 1e-7 * np.eye(p)), np.eye(p), 1e-5):
+            ck.fail("kalman-c/Vb-not-inverse-information", "Vb is not symmetric or not (X'X + 1e-7 I)^-1", dict(rep, Vb=Vb.tolist()))
+        # model (Qc recursion as the C writes it) vs the C
+        cx.term("kf_close %s %s %s (q_kf_fit %s kf_init_var %s %s) %s %s %s %s %s" % (
+            TOLK, cnat(n), cnat(p), cnat(p), zm(X), zv(y), qv(b_fit), qs(ssd), qs(s2), qs(s2c), cnat(n)),
+            "model-vs-impl/kalman-c-final", "Gallina Kalman recursion and fff_glm_KF_fit disagree",
+            dict(rep, b=b_fit.tolist(), ssd=ssd, s2=s2, s2_cor=s2c))
+        if mid is not None:
+            cx.term("match q_kf_fit %s kf_init_var %s %s with Some s_ => vclose %s (kb s_) %s && qclose %s (kssd s_) %s | None => false end" % (
+                cnat(p), zm(X[:tcheck]), zv(y[:tcheck]), "(Qmake 1 100000)", qv(mid[0]), "(Qmake 1 100000)", qs(mid[1])),
+                "model-vs-impl/kalman-c-step", "Gallina Kalman recursion and fff_glm_KF_iterate disagree after a prefix of the rows",
+                dict(rep, rows=tcheck, b=list(mid[0]), ssd=mid[1]))
+        # refined filter (AR(1)): current C against the installed wrapper (same source unless the C was edited)
+        try:
+            from nipy.labs.glm import kalman as kmod
+            rk = lib.fff_glm_RKF_new(p)
+            lib.fff_glm_RKF_fit(rk, 2, C.byref(yv), C.byref(Xm))
+            r = rk.contents
+            rb = np.array([r.b.contents.data[j] for j in range(p)])
+            rs2, ra, rdof, rs2c = r.s2, r.a, r.dof, r.s2_cor
+            lib.fff_glm_RKF_delete(rk)
+            B, VB, S2, dof_, A = kmod.ar1(yf[:, None].copy(), Xf, niter=2, axis=0)
+            stale += 1
+            if rdof != n - p or abs(rs2c - (n / rdof) * rs2) > 1e-12 * (1 + abs(rs2c)):
+                ck.fail("kalman-c/rkf-dof-or-scale", "RKF dof != n-p or s2_cor != (n/dof) s2", dict(rep, dof=rdof, s2=rs2, s2_cor=rs2c))
+            if np.all(np.isfinite(rb)) and (not close(rb, B[:, 0], 1e-9) or not close(rs2, S2.ravel()[0], 1e-9) or not close(ra, A.ravel()[0], 1e-9)):
+                ck.fail("kalman-c/rkf-differs-from-installed-module", "fff_glm_RKF_fit of the current C and the installed kalman.ar1 disagree",
+                        dict(rep, b=rb.tolist(), installed_b=B[:, 0].tolist(), a=ra, installed_a=float(A.ravel()[0])))
+        except ImportError:
+            pass
+        if i < 1:
+            ck.sample({"kalman_c": rep, "b": b_fit.tolist(), "ssd": ssd, "s2": s2, "dof": dof, "s2_cor": s2c})
+    ck.section("kalman_c", cases=N, rkf_cases_against_installed_module=stale)
+
 
 def run(ck):
     ck.cov["rule"] = ("random integer designs (n 3..16 quick / 3..30 thorough, p 1..min(n-1,5), full column rank, cond < 200) x integer data "
@@ -592,12 +766,13 @@ def run(ck):
                       "reparametrisations, steps in {2,4,8,16,100}; a case = one (design, data, engine configuration); distinct by content; "
                       "non-trivial = non-zero AR coefficients / non-unit weights / more than one label / N-d data")
     ck.coq_build()
-    ck.overlay()
+    ck.overlay(cstat=True)
     cx = Ctx(ck)
     whiten_section(ck, cx)
     fit_section(ck, cx)
     glm_ar1_section(ck, cx)
     labs_axis_section(ck)
+    kalman_c_section(ck, cx)
     cx.flush()
     ck.section("model", coq_terms=len(cx.terms))
     ck.trust.append("oracle contracts (hypotheses of pinv_solves_normal_eq / ols_fit_optimal): numpy.linalg.pinv returns P with "
